@@ -99,8 +99,125 @@ PROPS = {
                 workloads=[W_WPT_URL, W_PARSE(2000, 50000), W_HIST(300, 8000)]),
     'C07': dict(level=MC, rule=RULE, assumptions=ASSUME_URL,
                 workloads=[W_WPT_SET, W_HIST(800, 25000), W_PARSE(800, 20000)]),
+    'C08': dict(level=MC, rule=RULE, assumptions=ASSUME_URL + [
+                'under a limit L the expected answer is the C09 relation: must be false when the Standard\'s result is longer than L, '
+                'must equal the unlimited answer when input, base and result fit, either otherwise'], models=[M_PARSER],
+                workloads=[W_MC_REPLAY, dict(name='canparse-targeted', gen=gen_url.canparse_workload, n_quick=2500, n_thorough=60000),
+                           W_WPT_URL, dict(name='limit-windows', gen=gen_url.limit_workload, n_quick=150, n_thorough=4000)]),
+    'C09': dict(level=MC, rule=RULE, assumptions=ASSUME_URL + [
+                'limits are only lowered to values under which the object operated on could itself have been obtained (L >= |href| of the '
+                'object before a setter); observation (getters) is made with the limit lifted'],
+                workloads=[dict(name='limit-windows', gen=gen_url.limit_workload, n_quick=450, n_thorough=12000),
+                           dict(name='canparse-targeted', gen=gen_url.canparse_workload, n_quick=600, n_thorough=15000)]),
     'C10': dict(level=MC, rule=RULE, assumptions=ASSUME_URL,
                 workloads=[W_PARSE(1500, 30000), W_HIST(500, 10000)]),
+    'C11': dict(level=MC, rule=RULE + '; the byte sweep is exhaustive over (byte value that can occur in valid UTF-8) x (component using a '
+                'percent-encode set) x (4 contexts)', assumptions=ASSUME_URL + [
+                    'the 13 byte values that cannot occur in valid UTF-8 (C0 C1 F5..FF) are exercised only by the C02 check',
+                    'the application/x-www-form-urlencoded set is swept through URLSearchParams by the C12 workloads (trace/TraceParams.tla)'],
+                models=[dict(module='MC_PercentEncode', cfg='MC_PercentEncode')],
+                workloads=[dict(name='byte-sweep', gen=gen_url.pct_workload, attribute_all=True),
+                           W_PARSE(500, 20000)]),
     'C19': dict(level=MC, rule=RULE, assumptions=ASSUME_URL,
                 workloads=[W_WPT_SET, W_HIST(800, 25000), W_PARSE(800, 20000)]),
 }
+
+
+# ---- C12: URLSearchParams = the Standard's ordered list of name-value pairs (spec/SearchParams.tla)
+import gen_params
+
+RULE_PARAMS = ('cases = public calls recorded on ada::url_search_params and, in lockstep, on the C handle '
+               'ada_url_search_params (one trace event each: constructor, append, set, remove, remove(name,value), sort, reset, '
+               'has, has(name,value), get, get_all, to_string + re-parse, copy, iterator open / next / close); every event '
+               'carries arguments and results or the full observable state, so every case is non-trivial; '
+               'distinct = distinct (event kind, operation, argument bytes)')
+ASSUME_PARAMS = ['the TLA+ transcription of the URL Standard\'s URLSearchParams list model and of the '
+                 'application/x-www-form-urlencoded parser / serializer (spec/SearchParams.tla, spec/PercentEncode.tla) is the oracle',
+                 'strings are bytes: the Standard\'s final "UTF-8 decode without BOM" (U+FFFD for ill-formed sequences) is not '
+                 'modelled because ada keeps the bytes; model and Standard coincide when the percent-decoded names / values are valid UTF-8',
+                 'the order produced by sort() is specified only when every name is valid UTF-8; otherwise the event is counted in '
+                 'skipped_unspecified and only "the result is a permutation" and "C agrees with C++" are checked',
+                 'iterators are used within the lifetime of their params object; ada_strings_get only with index < size']
+_PMOD = dict(module='TraceParams', main='params_main.cpp')
+M_PARAMS = dict(module='MC_SearchParams', cfg_quick='MC_SearchParams_quick', cfg_thorough='MC_SearchParams_thorough',
+                post=[gen_params.collect_behaviours], timeout=3000)
+W_P_REPLAY = dict(name='tlc-behaviours-replayed', gen=gen_params.mc_replay, replayable=True, configs_quick=['default'],
+                  configs_thorough=['default', 'asan'], **_PMOD)
+# one workload = one record+validate run (16 shards, 16 JVM starts: ~25 s fixed), so the random histories, the
+# sort-centred histories and the round-trip lists are generated into ONE ops list (gen_params.mixed_workload)
+W_P_MIXED = dict(name='params-mixed', gen=gen_params.mixed_workload, n_quick=1000, n_thorough=40000,
+                 configs_quick=['default'], configs_thorough=['default'], **_PMOD)
+# the same generator (other seed) on the ASan + UBSan + LSan build: the executor releases every C handle / owned
+# string / list / iterator exactly once, so a leak, double free or over-read in the wrapper ends the run ("crashed")
+W_P_MIXED_SAN = dict(name='params-mixed-sanitized', gen=gen_params.mixed_workload, n_quick=200, n_thorough=8000,
+                     configs_quick=['asan'], configs_thorough=['asan'], **_PMOD)
+
+PROPS['C12'] = dict(level=MC, rule=RULE_PARAMS, assumptions=ASSUME_PARAMS, models=[M_PARAMS],
+                    workloads=[W_P_REPLAY, W_P_MIXED, W_P_MIXED_SAN])
+
+
+# ---------------------------------------------------------------- IDNA (C06, C16)
+import gen_idna
+
+IDNA_BEHAVIOURS = []
+
+
+def collect_idna_behaviours(r, cov, problems):
+    import json as _json
+    n = 0
+    for ln in r['out'].splitlines():
+        if ln.startswith('"@@B '):
+            try:
+                rec = _json.loads(_json.loads(ln)[4:])
+            except ValueError:
+                continue
+            IDNA_BEHAVIOURS.append(rec)
+            n += 1
+    cov['tlc_behaviours_emitted'] = cov.get('tlc_behaviours_emitted', 0) + n
+    if n == 0:
+        problems.append('the MC_Idna run emitted no strings for replay')
+
+
+def w_idna_replay(ops, rng, n):
+    gen_idna.w_mc_replay_from(IDNA_BEHAVIOURS)(ops, rng, n)
+
+
+def WI(name, gen, q=0, t=0, **kw):
+    return dict(name=name, gen=gen, n_quick=q, n_thorough=t, module='TraceIdna', main='idna_main.cpp', **kw)
+
+
+RULE_IDNA = ('cases = calls of ada::idna::to_ascii / to_unicode, the C API and the URL parser recorded on the real library '
+             '(one trace event per input, or per pair for equivalence events); every recorded case is non-trivial (each '
+             'carries a conversion result or a failure); distinct = distinct (event kind, input bytes)')
+ASSUME_IDNA = ['oracle = the TLA+ transcription of UTS #46 / RFC 3492 / RFC 5892 A.1-A.2 / RFC 5893 over a HAND-WRITTEN fragment '
+               'of the Unicode data (ASCII + the rows of spec/IdnaFragment.tla); the per-code-point tables are compared with '
+               'the specification only on that fragment and on the WPT vectors (toascii.json, IdnaTestV2.json) -- there is no '
+               'independent Unicode 17 data file in the sandbox',
+               'inputs with a code point outside the fragment, or whose normalisation needs a composite outside the fragment, '
+               'are skipped by the specification comparison and counted (skipped_unspecified); the C16 laws are evaluated on '
+               'observed values for arbitrary assigned code points',
+               'canonically equivalent spellings are produced with Python unicodedata (Unicode 14) from code points assigned '
+               'in Unicode <= 14',
+               'inputs are valid UTF-8']
+
+M_IDNA = dict(module='MC_Idna', cfg_quick='MC_Idna_quick', cfg_thorough='MC_Idna_thorough', post=[collect_idna_behaviours],
+              timeout=3000)
+W_IDNA_REPLAY = WI('tlc-strings-replayed', w_idna_replay)
+W_IDNA_VEC = WI('spec-vs-wpt-vectors', gen_idna.w_spec_vectors, replayable=False)
+W_IDNA_WPT = WI('wpt-idna-inputs', gen_idna.w_wpt_inputs, 1, 0)
+
+
+PROPS['C06'] = dict(level=MC, rule=RULE_IDNA, assumptions=ASSUME_IDNA, models=[M_IDNA],
+                    workloads=[W_IDNA_REPLAY, W_IDNA_VEC, W_IDNA_WPT,
+                               WI('fragment-random', gen_idna.w_frag_random, 4000, 120000),
+                               WI('punycode-labels', gen_idna.w_puny_labels, 600, 20000)])
+PROPS['C16'] = dict(level=MC, rule=RULE_IDNA, assumptions=ASSUME_IDNA, models=[M_IDNA],
+                    workloads=[WI('equivalent-pairs', gen_idna.w_equivalent, 4000, 150000),
+                               WI('laws-arbitrary-code-points', gen_idna.w_laws, 4000, 150000),
+                               W_IDNA_WPT, W_IDNA_VEC, W_IDNA_REPLAY,
+                               WI('fragment-random', gen_idna.w_frag_random, 1500, 40000)])
+
+
+# ---- C13: thread safety (spec/TablesInit.tla, harness/sched_main.cpp, lib/c13.py)
+import c13
+PROPS['C13'] = dict(level=MC, custom=c13.run)
